@@ -5,7 +5,9 @@ import (
 	"errors"
 	"fmt"
 	"io"
+	"maps"
 	"runtime/debug"
+	"slices"
 
 	"github.com/DDP-Projekt/Kompilierer/src/ast"
 	"github.com/DDP-Projekt/Kompilierer/src/ast/annotators"
@@ -232,7 +234,8 @@ func Compile(options Options) (result *Result, err error) {
 		ll_modules[ddppath.DDP_List_Types_Defs_LL] = list_defs
 	}
 
-	for name := range ll_modules_ir {
+	// in sorted order (not the order of the map), so that the log and the module whose error is reported do not change from run to run
+	for _, name := range slices.Sorted(maps.Keys(ll_modules_ir)) {
 		options.Log("Parse '%s' zu llvm-Module", name)
 		// we do not need to defer llmod.Dispose here
 		// because the modules will be destroyed when linking them into the main module
@@ -248,7 +251,12 @@ func Compile(options Options) (result *Result, err error) {
 
 	defer ll_main_module.Dispose()
 	options.Log("Linke llvm Module")
-	if err := llvmLinkAllModules(ll_main_module, mapToSlice(ll_modules)); err != nil {
+	// link in sorted order (not the order of the map), so that the emitted module does not change from run to run
+	ll_sources := make([]llvm.Module, 0, len(ll_modules))
+	for _, name := range slices.Sorted(maps.Keys(ll_modules)) {
+		ll_sources = append(ll_sources, ll_modules[name])
+	}
+	if err := llvmLinkAllModules(ll_main_module, ll_sources); err != nil {
 		return nil, fmt.Errorf("Fehler beim Linken von llvm-Modulen: %w", err)
 	}
 
@@ -321,14 +329,6 @@ func DumpListDefinitions(w io.Writer, outputType OutputType, errorHandler ddperr
 		return err
 	}
 	return errors.New("invalid compiler.OutputType")
-}
-
-func mapToSlice[T comparable, U any](m map[T]U) []U {
-	result := make([]U, 0, len(m))
-	for _, v := range m {
-		result = append(result, v)
-	}
-	return result
 }
 
 // wraps a panic with more information and re-panics
